@@ -595,7 +595,7 @@ class Harness:
         scn = self.scn
         for op in scn["script"]:
             o = op["op"]
-            if self.accept_done.is_set() and not op.get("force") and o in ("adopt", "adopt_burst", "execute", "new_service", "step", "seg", "end", "block", "park", "wait_start", "sigint", "polls"):
+            if self.accept_done.is_set() and not op.get("force") and o in ("adopt", "adopt_burst", "execute", "new_service", "step", "seg", "end", "block", "park_payload", "wait_start", "sigint", "polls"):
                 # the runtime has ended: the rest of the behaviour cannot be played any more
                 hooks.emit("skipped", op=o)
                 continue
@@ -618,7 +618,7 @@ class Harness:
                 self.command(op["p"], {"op": "end", "how": op["how"]})
             elif o == "block":
                 self.command(op["p"], {"op": "block"})
-            elif o == "park":
+            elif o == "park_payload":
                 self.command(op["p"], {"op": "park"})
             elif o == "gc":
                 # a cyclic garbage collection happens some time during the run
@@ -804,12 +804,24 @@ def main():
 
     logging.disable(logging.CRITICAL)
     h = Harness(scn)
-    driver = threading.Thread(target=h.drive, name="driver", daemon=True)
+    crashed = []
+
+    def drive():
+        try:
+            h.drive()
+        except BaseException:  # noqa: a fault of the script or of this harness - never a verdict
+            import traceback
+            crashed.append(traceback.format_exc())
+
+    driver = threading.Thread(target=drive, name="driver", daemon=True)
     done = threading.Lock()
 
     def dump_and_exit():
         with done:
-            json.dump({"events": hooks.snapshot()}, sys.stdout, default=str)
+            out = {"events": hooks.snapshot()}
+            if crashed:
+                out["error"] = "the scenario driver crashed: " + crashed[0][-1200:]
+            json.dump(out, sys.stdout, default=str)
             sys.stdout.flush()
             os._exit(0)
 
